@@ -8,6 +8,7 @@ import (
 	"encoding/hex"
 	"encoding/json"
 	"fmt"
+	"net/netip"
 	"reflect"
 	"sort"
 	"strconv"
@@ -696,6 +697,15 @@ func expectedStructHash(e proto.Message) (string, error) {
 	return structHash(s)
 }
 
+func contains(l []string, x string) bool {
+	for _, y := range l {
+		if y == x {
+			return true
+		}
+	}
+	return false
+}
+
 // PLName returns the payload identity for a canonical hash; unknown payloads
 // are given a name derived from the hash so that no specification state can
 // contain them unless they were programmed under that name.
@@ -740,11 +750,43 @@ func AbstractOp(p *spb.AFTOperation) Op {
 	}
 	regMu.Lock()
 	n, ok := reg[parts.Hash]
-	if !ok {
-		n = "h" + parts.Hash
-		reg[parts.Hash] = n
-	}
 	regMu.Unlock()
+	if !ok {
+		// first sight of this payload: name it after its hash
+		n = "h" + parts.Hash
+	}
+	// static malformations that the server must answer with FAILED (C12 classes)
+	if o.Typ != "DELETE" || o.Kind == "nh" || o.Kind == "nhg" {
+		switch {
+		case (o.Kind == "nh" || o.Kind == "nhg") && o.Key == "0":
+			o.Bad = "zeroIndex"
+		case o.Typ != "DELETE" && o.Kind == "nhg" && len(o.NHs) == 0:
+			o.Bad = "emptyGroup"
+		case o.Typ != "DELETE" && o.Kind == "nhg" && contains(o.NHs, "0"):
+			o.Bad = "zeroNHInGroup"
+		case o.Typ != "DELETE" && (o.Kind == "v4" || o.Kind == "v6" || o.Kind == "mpls") && (o.G == "" || o.G == "0"):
+			o.Bad = "zeroGroup"
+		}
+	}
+	if o.Typ != "DELETE" {
+		switch t := e.(type) {
+		case *aftpb.Afts_Ipv4EntryKey:
+			if pf, err := netip.ParsePrefix(t.GetPrefix()); err != nil || !pf.Addr().Is4() {
+				o.Bad = "badPrefix"
+			}
+		case *aftpb.Afts_Ipv6EntryKey:
+			if pf, err := netip.ParsePrefix(t.GetPrefix()); err != nil || !pf.Addr().Is6() {
+				o.Bad = "badPrefix"
+			}
+		case *aftpb.Afts_LabelEntryKey:
+			if t.GetLabelUint64() > 1048575 {
+				o.Bad = "labelRange"
+			}
+		}
+	}
+	// register its protobuf and ygot forms (the latter includes the key, so every keyed entry
+	// has its own; and the forms without boolean leaves, see RegisterOp)
+	RegisterOp(Op{PL: n}, p)
 	o.PL = n
 	if o.Typ == "DELETE" {
 		o.PL, o.NHs, o.BK, o.G, o.GNI = "", []string{}, "", "", ""
